@@ -1,6 +1,7 @@
 package main
 
 import (
+	"encoding/binary"
 	"bytes"
 	"encoding/json"
 	"errors"
@@ -382,6 +383,13 @@ func runC17(ctx *Ctx) {
 		}
 		return
 	}
+	if kind == "profile" && r.Intn(3) == 0 {
+		// a header that declares fewer field names than the column records use
+		if b, ok := truncateProfileFields(valid, r.Intn(12)); ok {
+			c17Emit(ctx, &c17Input{Kind: kind, Bytes: hx(b)}, "kind="+kind, "mut=fewer-fields")
+			return
+		}
+	}
 	b, how := mutate(r, valid)
 	if r.Intn(4) == 0 {
 		b, _ = mutate(r, b)
@@ -596,4 +604,43 @@ func corpusC18(ctx *Ctx, op string, raw json.RawMessage) {
 		panic(err)
 	}
 	ctx.Emit("chunk", &in, c18Run(&in), true, "corpus", "kind="+in.Kind)
+}
+
+
+// truncateProfileFields rewrites the `fields` string list of an encoded table profile so that it
+// declares only the first k names; everything else is kept.
+func truncateProfileFields(b []byte, k int) ([]byte, bool) {
+	label := []byte("fields ")
+	i := bytes.Index(b, label)
+	if i < 0 {
+		return nil, false
+	}
+	o := i + len(label)
+	if o+4 > len(b) {
+		return nil, false
+	}
+	n := int(binary.BigEndian.Uint32(b[o:]))
+	p := o + 4
+	ends := []int{p}
+	for j := 0; j < n; j++ {
+		if p+2 > len(b) {
+			return nil, false
+		}
+		l := int(binary.BigEndian.Uint16(b[p:]))
+		p += 2 + l
+		if p > len(b) {
+			return nil, false
+		}
+		ends = append(ends, p)
+	}
+	if k > n {
+		k = n
+	}
+	out := append([]byte{}, b[:o]...)
+	cnt := make([]byte, 4)
+	binary.BigEndian.PutUint32(cnt, uint32(k))
+	out = append(out, cnt...)
+	out = append(out, b[o+4:ends[k]]...)
+	out = append(out, b[ends[n]:]...)
+	return out, true
 }
